@@ -10,6 +10,7 @@ import (
 	"fmt"
 	"io"
 	"log"
+	"os"
 	"sort"
 	"strconv"
 	"strings"
@@ -548,6 +549,37 @@ func main() {
 			g.add(fmt.Sprintf("readalloc v=%d", v), true)
 		}
 		ops = g.ops
+	}
+
+	// golden vectors: the byte layout deployed peers expect (frozen from the pinned tree)
+	if f.Replay == "" {
+		dir := os.Getenv("VERIF_DIR")
+		if dir == "" {
+			dir = "/verif"
+		}
+		if bs, err := os.ReadFile(dir + "/corpus/C13/golden.vec"); err == nil {
+			for _, l := range strings.Split(string(bs), "\n") {
+				p := strings.Split(strings.TrimSpace(l), " => ")
+				if len(p) != 2 {
+					continue
+				}
+				got := c.runOp(p[0])
+				rep.Count("golden-vector")
+				rep.Case("golden "+p[0], true)
+				ws := strings.Fields(p[0])
+				if got != p[1] {
+					rep.Fail("wire-layout-changed:"+ws[1], fmt.Sprintf("%s encodes to %s; deployed peers expect %s", p[0], got, p[1]), []string{p[0]})
+					continue
+				}
+				d := c.runOp(fmt.Sprintf("dec %s cap=0 %s", ws[1], p[1]))
+				want := fmt.Sprintf("ok consumed=%d vals=[%s]", len(hx.UnHex(p[1])), strings.Join(ws[2:], " "))
+				if d != want {
+					rep.Fail("wire-layout-changed:"+ws[1], fmt.Sprintf("the deployed encoding %s of %s decodes as %q", p[1], p[0], d), []string{"dec " + ws[1] + " cap=0 " + p[1]})
+				}
+			}
+		} else {
+			rep.Note("golden vectors not found: %v", err)
+		}
 	}
 
 	impl := make([]string, len(ops))
